@@ -8,10 +8,10 @@ CONSTANTS
   Backlog = 2
   MaxPer = 2
   MaxW = 3
-  MaxAllocs = 3
+  MaxAllocs = 2
   MaxTime = 2
   Workers = {1, 2}
-  MaxDemand = 3
+  MaxDemand = 2
 CHECK_DEADLOCK FALSE
 INVARIANTS
   C17_BacklogBound
